@@ -291,6 +291,20 @@ func sdfCatalogue(seed int64, k int) []probeShape {
 			return sdf.Slice2D(s, s.BoundingBox().Center().Add(v3.Vec{X: c.u(-0.3, 0.3), Y: c.u(-0.3, 0.3), Z: c.u(-0.3, 0.3)}),
 				v3.Vec{X: c.u(-1, 1), Y: c.u(-1, 1), Z: c.u(-1, 1)}), nil
 		})
+		if i < 8 {
+			// a block that fills every corner of its bounding box, sliced by a plane whose normal has three non-zero
+			// components (one per sign pattern), and rotated copies about a skew axis: every corner of the box matters
+			sg := v3.Vec{X: float64(1 - 2*(i&1)), Y: float64(1 - 2*((i>>1)&1)), Z: float64(1 - 2*((i>>2)&1))}
+			blk, _ := sdf.Box3D(v3.Vec{X: c.u(1, 3), Y: c.u(1, 3), Z: c.u(1, 3)}, 0)
+			c.add2("Slice2D", fmt.Sprintf("block:n=(%g,%g,%g)", sg.X, sg.Y, sg.Z), func() (sdf.SDF2, error) {
+				return sdf.Slice2D(blk, v3.Vec{}, v3.Vec{X: sg.X * c.u(0.8, 1.2), Y: sg.Y * c.u(0.8, 2), Z: sg.Z * c.u(0.8, 3)}), nil
+			})
+			c.add3("RotateUnion3D", fmt.Sprintf("block:skew-axis(%g,%g,%g)", sg.X, sg.Y, sg.Z), func() (sdf.SDF3, error) {
+				n := 3 + c.rnd.Intn(4)
+				off := sdf.Transform3D(blk, sdf.Translate3d(v3.Vec{X: c.u(-2, 2), Y: c.u(-2, 2), Z: c.u(-2, 2)}))
+				return sdf.RotateUnion3D(off, n, sdf.Rotate3d(v3.Vec{X: sg.X, Y: 2 * sg.Y, Z: 2 * sg.Z}, sdf.Tau/float64(n+1))), nil
+			})
+		}
 		c.add2("Slice2D", nm("axis:"+sn), func() (sdf.SDF2, error) {
 			n := [3]v3.Vec{{X: 1}, {Y: -1}, {Z: 1}}[i%3]
 			return sdf.Slice2D(s, s.BoundingBox().Center(), n), nil
